@@ -43,3 +43,12 @@
 (declare-fun nsplit_slash (String) Int)
 (declare-fun split_colon (String) (Array Int String))
 (declare-fun nsplit_colon (String) Int)
+
+; decimal rendering of k/10 with at most one decimal digit (0 <= k): "7", "7.5", "10"
+(define-fun dec1 ((k Int)) String
+  (str.++ (str.from_int (div k 10)) (ite (= (mod k 10) 0) "" (str.++ "." (str.from_int (mod k 10))))))
+
+; r is (fp-equal to) a tenth k/10 with lo <= k <= hi
+(define-fun ongrid ((r F64) (lo Int) (hi Int)) Bool
+  (let ((k (to_int (+ (* 10.0 (fp.to_real r)) 0.5))))
+    (and (not (fp.isNaN r)) (not (fp.isInfinite r)) (fp.eq r (tenth k)) (<= lo k) (<= k hi))))
